@@ -6,3 +6,4 @@ import Aiorpcx.C09.Props
 import Aiorpcx.C10.Props
 import Aiorpcx.C15.Props
 import Aiorpcx.C19.Props
+import Aiorpcx.C07.Props
